@@ -538,6 +538,7 @@ class sptenmat:
 
         newsubs = []
         newvals = []
+        newpos: dict = {}
 
         k = -1
 
@@ -555,8 +556,14 @@ class sptenmat:
                 k += 1
 
                 if indx.size == 0:
-                    newsubs.append(np.hstack([rsubs[i], csubs[j]]))
-                    newvals.append(value[k])
+                    position = (int(rsubs[i]), int(csubs[j]))
+                    if position in newpos:
+                        # Named more than once: one entry, the last value
+                        newvals[newpos[position]] = value[k]
+                    else:
+                        newpos[position] = len(newsubs)
+                        newsubs.append(np.hstack([rsubs[i], csubs[j]]))
+                        newvals.append(value[k])
                 else:
                     self.vals[indx] = value[k]
 
@@ -571,6 +578,12 @@ class sptenmat:
             sort_idx = np.lexsort(self.subs.transpose()[::-1])
             self.subs = self.subs[sort_idx]
             self.vals = self.vals[sort_idx]
+
+        # An entry assigned zero is no longer a nonzero
+        if self.vals.size > 0 and np.any(self.vals == 0):
+            keep = (self.vals != 0).reshape(-1)
+            self.subs = self.subs[keep, :]
+            self.vals = self.vals[keep]
 
     def __repr__(self):
         """Return string representation of a :class:`pyttb.sptenmat`.
